@@ -118,6 +118,15 @@ func (s *Sched) Panics() []interface{} {
 
 func (s *Sched) PanicStack(id int) string { return s.threads[id].stack }
 
+// Sleeps returns the number of Sleep calls made by all threads.
+func (s *Sched) Sleeps() int {
+	n := 0
+	for _, t := range s.threads {
+		n += t.sleeps
+	}
+	return n
+}
+
 // Done reports whether thread id ran to completion.
 func (s *Sched) Done(id int) bool { return s.threads[id].done }
 
